@@ -30,6 +30,14 @@ def select(ctx, ops, pred, thorough):
             for si, seg in enumerate(segs):
                 scns.append({"op": name, "fault": "stall", "k": k, "allowed": sorted(allowed), "need": p["need"], "total": p["total"],
                              "lastret": p["lastret"], "setting": "conn", "seg": seg if not thorough else segs[(si + k) % 3], "result": op["result"]})
+        if name.startswith("g.sendcommand") and not name.startswith("g.sendcommands"):
+            # one exchange, one clock: the device is slow (70 % of the timeout for what comes before the stall), the stall lies in
+            # the wait for the prompt - the timeout is counted from the start of the operation
+            for k in (pred[(name, 0)]["lastret"] + 2, pred[(name, 0)]["lastret"] + 3):
+                pp = pred.get((name, k))
+                if pp and k < pp["need"]:
+                    scns.append({"op": name, "fault": "stall", "k": k, "allowed": sorted(pp["allowed"]), "need": pp["need"], "total": pp["total"],
+                                 "lastret": pp["lastret"], "setting": "paced", "seg": "one", "result": op["result"]})
         if op["perop"]:
             lo, hi = op["peropfrom"], pred[(name, 0)]["need"]
             pts = sorted({lo, (lo + hi) // 2, max(hi - 1, lo)}) if not thorough else sorted(set(range(lo, hi, max(1, (hi - lo) // 8))))
